@@ -94,6 +94,8 @@ M = [
     ("h_envelope_len_check_flipped", "C14", "src/kms/envelope.rs", "if nonce_len != NONCE_LEN_BYTES || dek_len > ciphertext_blob.len() {", "if dek_len > ciphertext_blob.len() || nonce_len != NONCE_LEN_BYTES {", "harmless"),
     ("h_config_range_contains", "C16", "src/config/mod.rs", "    if cfg.fault_percentage() > 50 {", "    if cfg.fault_percentage() >= 51 {", "harmless"),
     ("h_server_srv_local", "C12", "src/request.rs", "        if request_srv != expected_srv {", "        let matches = request_srv == expected_srv;\n        if !matches {", "harmless"),
+    ("sc_recorder_not_cleared", "C17", "src/server.rs", "            self.stats_queue.force_push(clients);\n            self.stats_recorder.clear();", "            self.stats_queue.force_push(clients);", "break"),
+    ("sc_snapshot_pushed_when_empty_cleared", "C17", "src/server.rs", "        if client_count > 0 {\n            self.stats_queue.force_push(clients);\n            self.stats_recorder.clear();\n        }", "        self.stats_recorder.clear();\n        if client_count > 0 {\n            self.stats_queue.force_push(clients);\n        }", "break"),
     # ---- harmless edits: must never give a VIOLATION ----
     ("h_msg_extra_capacity", "C05", "src/message.rs", "let mut out = Vec::with_capacity(self.encoded_size());", "let mut out = Vec::with_capacity(self.encoded_size() + 0);", "harmless"),
     ("h_merkle_renamed_local", "C04", "src/merkle.rs", "let mut node_count = self.levels[0].len();", "let mut node_count: usize = self.levels[0].len();", "harmless"),
